@@ -519,10 +519,12 @@ package spg
 //@   ensures [C07] value: res == entropyReq(pub(r), arr(r.RequireSets), off(r.RequireSets), len(r.RequireSets))
 
 //@ func (CharRecipe).SuccessProbability
-//@   trusted
+//@   requires [C03] utf8: utf8ok(r.AllowChars) && utf8ok(r.ExcludeChars) &&
+//@        forall(int(k), trig(r.RequireSets[k]), 0 <= k && k < len(r.RequireSets) ==> utf8ok(r.RequireSets[k]))
+//@   uses SUCCESSPROB-def, ENTROPYREQ-le, EXP2-mono, BOR-bits, ALPHASIZE-ext, INA-def, NOREQ-def, INCS-joinseg-elim, INCS-joinseg-intro, UTF8-joinseg, UTF8-cat, UTF8SEG-intro
 //@   modifies emitted
 //@   ensures [C13] value: res == successProb(pub(r), arr(r.RequireSets), off(r.RequireSets), len(r.RequireSets))
-//@   trusted-ensures [C17] silent: alphaSize(pub(r), arr(r.RequireSets), off(r.RequireSets), len(r.RequireSets)) >= 1 ==> outn == old(outn) && outl == old(outl)
+//@   ensures [C17] silent: alphaSize(pub(r), arr(r.RequireSets), off(r.RequireSets), len(r.RequireSets)) >= 1 ==> outn == old(outn) && outl == old(outl)
 
 //@ func (CharRecipe).Entropy
 //@   define utf8r() = utf8ok(r.AllowChars) && utf8ok(r.ExcludeChars) &&
@@ -536,6 +538,8 @@ package spg
 //@   ensures [C17] silent: alphaSize(pub(r), arr(r.RequireSets), off(r.RequireSets), len(r.RequireSets)) >= 1 ==> outn == old(outn) && outl == old(outl)
 
 //@ func (CharRecipe).hasAcceptableFailRate
+//@   requires [C03] utf8: utf8ok(r.AllowChars) && utf8ok(r.ExcludeChars) &&
+//@        forall(int(k), trig(r.RequireSets[k]), 0 <= k && k < len(r.RequireSets) ==> utf8ok(r.RequireSets[k]))
 //@   modifies emitted
 //@   ensures [C17] silent: alphaSize(pub(r), arr(r.RequireSets), off(r.RequireSets), len(r.RequireSets)) >= 1 ==> outn == old(outn) && outl == old(outl)
 //@   ensures [C13] decision: res0 == (successProb(pub(r), arr(r.RequireSets), off(r.RequireSets), len(r.RequireSets)) > 0.0 &&
